@@ -77,7 +77,15 @@ func runC20(k int, rng *Rng) CaseResult {
 		}
 		// later writes: before / inside / after the matched range
 		wr := HistOpts{Steps: 1 + rng.Intn(6), MaxObjs: 20, Rec: RecOpts{ValidOnly: true, Simple: true},
-			Mix: Mix{Ins: 45, Upd: 30, Del: 20, Many: 5}}
+			Mix: Mix{Ins: 45, Upd: 30, Del: 20, Many: 5, SDel: 3, Bulk: 3, DelAll: 2}}
+		if rng.P(0.15) {
+			// the collection is emptied, then refilled past the size it had: whatever the old
+			// search remembers (positions, ids) now designates other objects
+			n := w.m.Len()
+			w.Run(HistOpts{Steps: 1, MaxObjs: 40, Rec: wr.Rec, Mix: Mix{DelAll: 1}})
+			wr = HistOpts{Steps: n + 1 + rng.Intn(6), MaxObjs: 40, Rec: wr.Rec, Mix: Mix{Ins: 85, Many: 10, Upd: 5}}
+			writesBetween++
+		}
 		w.Run(wr)
 		writesBetween += wr.Steps
 		if w.failed() {
